@@ -373,3 +373,57 @@ func typeStressTail(intn func(int) int, m, lbl string) string {
 	}
 	return sb.String()
 }
+
+// RuntimeFamily returns n well-typed programs that share every declaration except how they
+// define the type name A (and its alias chain): positive in one member, negative in another,
+// of different shapes. Each member creates a provider of A and then does the things whose
+// run-time behaviour depends on A's polarity and shape being looked up by NAME: drop, split
+// then drop, forward, a call that passes it on (and is duplicated). A table of type facts keyed
+// by type name that survives from one run to the next gives the later member the earlier one's
+// answer (C19).
+func RuntimeFamily(intn func(int) int, n int) []string {
+	m := []string{"", "aff ", "rep "}[intn(3)]
+	canSplit := m != "aff "
+	lbl := []string{"l", "a", "k"}[intn(3)]
+	type shape struct{ ty, mk string }
+	shapes := []shape{
+		{"1", "close self"},
+		{"1 * 1", "u <- new mkU(); v <- new mkU(); send self<u, v>"},
+		{"+{" + lbl + " : 1}", "u <- new mkU(); self." + lbl + "<u>"},
+		{"1 -* 1", "<u, z> <- recv self; wait u; close self"},
+		{"&{" + lbl + " : 1}", "case self (" + lbl + "<z> => print w; close self)"},
+		{"1 -* (1 * 1)", "<u, z> <- recv self; v <- new mkU(); send self<u, v>"},
+	}
+	// what main does with x : A (all of it legal whatever A is, given the mode admits drop)
+	uses := []string{
+		"drop x; print q; close self",
+		"f : " + m + "A <- new fwd self x; print q; drop f; close self",
+		"c <- new use(x); print q; wait c; close self",
+	}
+	if canSplit {
+		uses = append(uses,
+			"<x1, x2> <- split x; print q; drop x1; drop x2; close self",
+			"<x1, x2> <- split x; c <- new use(x1); drop x2; wait c; print q; close self")
+	}
+	use := uses[intn(len(uses))]
+	chain := intn(3) // 0: A defined directly, 1: A = B, 2: A = B = C
+	var out []string
+	for i := 0; i < n; i++ {
+		s := shapes[intn(len(shapes))]
+		var sb strings.Builder
+		switch chain {
+		case 0:
+			fmt.Fprintf(&sb, "type A = %s%s\n", m, s.ty)
+		case 1:
+			fmt.Fprintf(&sb, "type A = %sB\ntype B = %s%s\n", m, m, s.ty)
+		default:
+			fmt.Fprintf(&sb, "type A = %sB\ntype B = %sC\ntype C = %s%s\n", m, m, m, s.ty)
+		}
+		fmt.Fprintf(&sb, "let mkU() : %s1 = close self\n", m)
+		fmt.Fprintf(&sb, "let mkA() : %sA = %s\n", m, s.mk)
+		fmt.Fprintf(&sb, "let use(y : %sA) : %s1 = print u; drop y; close self\n", m, m)
+		fmt.Fprintf(&sb, "prc[main] : %s1 = x <- new mkA(); print p; %s\n", m, use)
+		out = append(out, sb.String())
+	}
+	return out
+}
